@@ -744,6 +744,15 @@ fn run_live(clock: &Clock, cfg: &Value) {
                     w.wake();
                 }
             };
+            // an old connection: the timer queue was created long before the traffic arrives
+            let age_days = cfg["age_days"].as_u64().unwrap_or(0);
+            if age_days > 0 {
+                let waker = flag.waker();
+                let mut cx = Context::from_waker(&waker);
+                let _ = exec::catch(|| stream.as_mut().poll_next(&mut cx));
+                clock.advance(age_days * 86_400_000);
+                emit("Tick", json!({"d": age_days * 86_400_000}));
+            }
             let mut all: Vec<(String, Vec<u8>)> = items.iter().enumerate().map(|(i, it)| (it.clone(), live_item_bytes(clock, &codec, it, i as u64 + 10))).collect();
             all.push(("probe".to_string(), frame(&encode_cm(&codec, &client_msg(clock, "req", 999)))));
             for (name, bytes) in all {
@@ -833,8 +842,15 @@ fn run_clientdl(clock: &Clock, cfg: &Value) {
     let nc = client::new::<String, String, _>(client::Config::default(), tx);
     let mut dispatch = Box::pin(nc.dispatch);
     let ch = nc.client;
+    let age_days = cfg["age_days"].as_u64().unwrap_or(0);
+    if age_days > 0 {
+        let nw0 = futures::task::noop_waker();
+        let mut cx0 = Context::from_waker(&nw0);
+        let _ = exec::catch(|| dispatch.as_mut().poll(&mut cx0));
+        clock.advance(age_days * 86_400_000);
+    }
     let mut ctx = context::current();
-    let base = clock.t0.into_std();
+    let base = clock.t0.into_std() + Duration::from_secs(age_days * 86_400);
     match base.checked_add(Duration::from_secs(secs)) {
         Some(d) => ctx.deadline = d,
         None => {
@@ -901,11 +917,13 @@ pub fn run(a: &Args) -> Value {
                 if rng.gen_range(0..4) == 0 {
                     items.push(bad[rng.gen_range(0..3)]);
                 }
-                json!({"kind": "live", "codec": codec, "items": items, "sub": sub})
+                let age = [0u64, 0, 0, 70, 300][rng.gen_range(0..5)];
+                json!({"kind": "live", "codec": codec, "items": items, "sub": sub, "age_days": age})
             }
             _ => {
                 let c = ["1m", "3y", "10y", "100y", "10000y", "2p36ms"][rng.gen_range(0..6)];
-                json!({"kind": "clientdl", "dl_class": c, "sub": sub})
+                let age = [0u64, 0, 70, 300][rng.gen_range(0..4)];
+                json!({"kind": "clientdl", "dl_class": c, "sub": sub, "age_days": age})
             }
         };
         scheds.push(Sched { id: format!("r{}", i), cfg, steps: vec![], expect: None });
@@ -919,6 +937,7 @@ pub fn run(a: &Args) -> Value {
         emit("Reset", json!({"id": s.id, "kind": kind, "codec": s.cfg.get("codec").cloned().unwrap_or(json!("")),
                              "transit": s.cfg.get("transit").cloned().unwrap_or(json!(0)),
                              "close": s.cfg.get("close").cloned().unwrap_or(json!("drop")),
+                             "age_days": s.cfg.get("age_days").cloned().unwrap_or(json!(0)),
                              "sub": sub}));
         let r = exec::catch(|| match kind.as_str() {
             "rt" => run_rt(&clock, &s.cfg),
